@@ -1,4 +1,5 @@
 import JsightVerif.Props.C05
+import JsightVerif.Proofs.BuildProps
 /-
   C02 — the catalog says exactly what the document says (registry level).
   For every section, folding the document's declarations (in document order, pairwise distinct
@@ -17,5 +18,38 @@ theorem section_is_document {α} (l : List (Name × α)) (hd : (l.map (·.1)).No
 
 /-- non-vacuity -/
 example : (addAll (OMap.empty : OMap Nat) [("@a", 1), ("@b", 2)]).toOption.map (·.entries) = some [("@a", 1), ("@b", 2)] := by decide
+
+/-! ### interactions: the model that is compared with the real builder (Model/Build.lean, op `cat`) -/
+
+section Tied
+open JsightVerif.Model JsightVerif.Model.Build JsightVerif.Gen
+
+/-- **C02 (interactions, tied model)**: whenever the build model accepts a project, the catalog's
+    interactions are *exactly* the interactions the (macro-expanded) document declares — one per
+    HTTP method directive and one per JSON-RPC Method directive, in document order, with the id
+    computed from the directive and its ancestors; nothing missing, nothing invented, nothing
+    reordered.  For every forest, macro graph, ban set and file contents. -/
+theorem C02_interactions_exact (roots : List DT) (rootFile : Bytes) (banned : List Kind)
+    (content : Bytes → Bytes) (b : Built) (h : build roots rootFile banned content = .ok b) :
+    ids b.cat = idsOfList b.expanded [] := by
+  obtain ⟨_, _, _, _, tags, enums, s, _, _, _, hadd, hc⟩ := build_stages roots rootFile banned content b h
+  rw [hc, addList_ids content b.expanded [] b.expanded [] _ s hadd]
+  simp
+
+/-- non-vacuity: a two-directive forest the model accepts, with its one interaction -/
+example :
+    let mk (k : Kind) (kw : String) (named : List (String × Bytes)) (b : Int) : Dir :=
+      { kind := k, keyword := strBytes kw, named := named, unnamed := [], ann := [], body := none, explicit := false,
+        file := strBytes "r", kwBegin := b, kwEnd := b, trace := [] }
+    let forest : List DT :=
+      [.node (mk .Jsight "JSIGHT" [("Version", strBytes "0.3")] 0) [],
+       .node (mk .Get "GET" [("Path", strBytes "/a")] 11)
+         [.node { mk .HTTPResponseCode "200" [("SchemaNotation", strBytes "any")] 20 with } []]]
+    (match build forest (strBytes "r") [] (fun _ => []) with
+     | .ok b => ids b.cat == [strBytes "http GET /a"]
+     | .error _ => false) = true := by
+  decide +kernel
+
+end Tied
 
 end JsightVerif.Props.C02
